@@ -3,6 +3,11 @@
 // For every significand X in [2^FB, 2^(FB+1)) and exponent parity e in {0,1} the exact root of T = X * 2^(FB+e) is compared with the
 // rounding midpoint (2*Y0+1)/2, Y0 = isqrt(T); d = 4T - (2*Y0+1)^2 measures the (signed) distance.  The K arguments with the smallest |d|
 // per parity are printed as "e X d".
+// Mode "edges" (argv[3] = number of top fraction bits B that select a bin of a table-driven method, argv[4] = log2 of the window width):
+// a Newton-Raphson root that starts from a piecewise-linear table has its largest residual at the two edges and in the middle of every
+// bin, so an error-budget regression shows first on the hardest-to-round arguments *there*.  For every parity, every bin of the top B
+// fraction bits and each of the three windows (low edge, middle, high edge) the K arguments with the smallest positive d and the K with
+// the smallest negative d are printed.  run: ./gen_sqrt_hard 27 512 3 19 > sqrt_hard_edges_fb27.txt
 // build: cc -O2 -o gen_sqrt_hard gen_sqrt_hard.c -lm ; run: ./gen_sqrt_hard 27 400 > sqrt_hard_fb27.txt
 #include <stdio.h>
 #include <stdlib.h>
@@ -10,8 +15,43 @@
 #include <math.h>
 typedef struct { int64_t ad; int64_t d; uint64_t x; } rec;
 static int cmp(const void *a, const void *b) { int64_t x = ((const rec*)a)->ad, y = ((const rec*)b)->ad; return x < y ? -1 : x > y; }
+static int64_t dist(uint64_t X, int FB, int e) {
+    uint64_t T = X << (FB + e);
+    uint64_t y = (uint64_t)sqrt((double)T);
+    while (y * y > T) y--;
+    while ((y + 1) * (y + 1) <= T) y++;
+    uint64_t m = 2 * y + 1;
+    return (int64_t)(4 * T) - (int64_t)(m * m);
+}
+static void window(int FB, int e, uint64_t lo, uint64_t hi, int K, int sign) {
+    rec *best = malloc(sizeof(rec) * (size_t)(2 * K + 2)); int nb = 0; int64_t thr = INT64_MAX;
+    for (uint64_t X = lo; X < hi; X++) {
+        int64_t d = dist(X, FB, e);
+        if ((sign > 0) != (d > 0)) continue;
+        int64_t ad = d < 0 ? -d : d;
+        if (ad < thr) {
+            best[nb].ad = ad; best[nb].d = d; best[nb].x = X; nb++;
+            if (nb >= 2 * K) { qsort(best, nb, sizeof(rec), cmp); nb = K; thr = best[K - 1].ad; }
+        }
+    }
+    qsort(best, nb, sizeof(rec), cmp); if (nb > K) nb = K;
+    for (int i = 0; i < nb; i++) printf("%d %llu %lld\n", e, (unsigned long long)best[i].x, (long long)best[i].d);
+    free(best);
+}
 int main(int argc, char **argv) {
     int FB = argc > 1 ? atoi(argv[1]) : 27, K = argc > 2 ? atoi(argv[2]) : 400;
+    if (argc > 4) {
+        int B = atoi(argv[3]); uint64_t W = 1ull << atoi(argv[4]);
+        for (int e = 0; e < 2; e++) for (uint64_t b = 0; b < (1ull << B); b++) {
+            uint64_t lo = (1ull << FB) + (b << (FB - B)), hi = lo + (1ull << (FB - B)), mid = lo + (1ull << (FB - B - 1));
+            for (int sign = -1; sign <= 1; sign += 2) {
+                window(FB, e, lo, lo + W, K, sign);
+                window(FB, e, mid - W / 2, mid + W / 2, K, sign);
+                window(FB, e, hi - W, hi, K, sign);
+            }
+        }
+        return 0;
+    }
     for (int e = 0; e < 2; e++) {
         rec *best = malloc(sizeof(rec) * (size_t)(2 * K + 2)); int nb = 0; int64_t thr = INT64_MAX;
         for (uint64_t X = 1ull << FB; X < (2ull << FB); X++) {
